@@ -338,6 +338,33 @@ def run_shard(spec, tier, seed, budget_s):
             run_input(sh, 'Table t {\n a ' + ty + ' [pk, note: \'n\']\n}\nRef: t.a > t.a', 'multiline-type', feats={'type': ty})
         for fld in ['version: 2', 'public: true', 'x: null', 'y: 1.5', 'z: `e`', "k: 'v' extra", 'k:', ': \'v\'', 'k k2: \'v\'', "k: 'a' 'b'"]:
             run_input(sh, 'Project p {\n  ' + fld + '\n}\nTable t {\n a int\n}', 'project-field', feats={'field': fld})
+    if i in (3, 4, 5):
+        # coincidences between references and names: every reference form over every pair of endpoints of three small tables,
+        # including the same column on both sides, repeated columns, arities that differ, composite inline targets and
+        # join-table column names that coincide (a.b_c / a_b.c); whatever is accepted has to render
+        tabs = 'Table a {\n  x int\n  y int\n  b_c int\n}\nTable b {\n  z int\n  w int\n}\nTable a_b {\n  c int\n  x int\n}\n'
+        ends = ['a.x', 'a.y', 'a.b_c', 'b.z', 'b.w', 'a_b.c', 'a_b.x', 'a.(x, y)', 'a.(x, x)', 'b.(z, w)', 'b.(z)', 'a.(x)', 'a_b.(c, x)']
+        kinds = ['>', '<', '-', '<>']
+        if i == 3:
+            for e1 in ends:
+                for e2 in ends:
+                    for kd in kinds:
+                        run_input(sh, tabs + f'Ref: {e1} {kd} {e2}\n', 'refshape', feats={'form': 'short'})
+        elif i == 4:
+            for e1 in ends:
+                for e2 in ends:
+                    kd = kinds[(len(e1) + len(e2)) % 4]
+                    run_input(sh, tabs + f'Ref named {{\n  {e1} {kd} {e2} [delete: cascade]\n}}\n', 'refshape', feats={'form': 'block'})
+        else:
+            for e2 in ends:
+                for kd in kinds:
+                    run_input(sh, f'Table a {{\n  x int [ref: {kd} {e2}]\n  y int\n  b_c int\n}}\nTable b {{\n  z int\n  w int\n}}\nTable a_b {{\n  c int\n  x int\n}}\n',
+                              'refshape', feats={'form': 'inline'})
+                    run_input(sh, f'Table node {{\n  id int [ref: {kd} node.id]\n  up int [ref: {kd} node.(id, up)]\n}}\n', 'refshape', feats={'form': 'inline-self'})
+            # documents that declare no table and still name one
+            for body in ('Ref: a.x > b.y\n', 'Ref r {\n  a.x - b.y\n}\n', 'TableGroup g {\n  t\n}\n', 'TableGroup g {\n  s.t\n  u\n}\n',
+                         'Enum e {\n  a\n}\nRef: a.x <> a.x\n', 'Project p {\n  k: \'v\'\n}\nTableGroup g {\n  t\n}\n', 'Note n {\n  \'t\'\n}\nRef: a.x < b.y\n'):
+                run_input(sh, body, 'refshape', feats={'form': 'tableless'})
     # hostile substitution
     k = 0
     target = {'quick': 150, 'thorough': 6000}[tier]
